@@ -60,18 +60,28 @@ theorem parseU64_some (v : Bytes) (n : Nat) (hp : parseU64 v = some n) :
         exact ⟨fun e => by subst e; simp at he, hd, rfl⟩
       · cases hp
 
-/-- whatever `parse_u64` accepts of a single value is what the reference reads -/
-theorem parseU64_spec (g : List Header) (v : Bytes) (n : Nat)
-    (hg : Spec.Http.get g "content-length" = [v]) (hp : parseU64 v = some n) :
-    Spec.Http.contentLength g = some (some n) := by
+/-- whatever `parse_u64` accepts, the reference reads as the same number -/
+theorem parseU64_clValue (v : Bytes) (n : Nat) (hp : parseU64 v = some n) : Spec.Http.clValue v = some n := by
   obtain ⟨hne, hd, hn⟩ := parseU64_some v n hp
-  unfold Spec.Http.contentLength
-  rw [hg]
-  simp only
+  unfold Spec.Http.clValue
   have : (!v.isEmpty && v.all fun b => decide (48 ≤ b) && decide (b ≤ 57)) = true := by
     have : v.isEmpty = false := by cases v <;> simp_all
     rw [this]; exact hd
   rw [if_pos this, hn]
+
+/-- conversely, up to 19 digits `parse_u64` accepts what the reference reads (beyond, it refuses: the one
+    difference, on the safe side) -/
+theorem clValue_parseU64 (v : Bytes) (n : Nat) (hlen : v.length ≤ 19) (hc : Spec.Http.clValue v = some n) :
+    parseU64 v = some n := by
+  unfold Spec.Http.clValue at hc
+  split at hc
+  · rename_i hd
+    simp only [Bool.and_eq_true, Bool.not_eq_true'] at hd
+    cases hc
+    rw [parseU64_eq, if_neg (by simp [hd.1]), if_neg (by omega)]
+    have : v.all isDig = true := hd.2
+    rw [if_pos this]
+  · cases hc
 
 /-- the repaired reading of a (possibly repeated) content-length: every value must parse, all to the
     same number (`HeaderMap::get_all`) -/
@@ -383,8 +393,47 @@ theorem bad_content_length_refused (s : Streams) (k : Nat) (blk : HeaderBlock) (
     · exact absurd e hbad.1
     · exact absurd ⟨n, hn⟩ hbad.2
 
-/-- in the reference's terms: when `Spec.Http.contentLength` reads `n` (one value, non-empty, all digits)
-    and the head is accepted, `n` is what the ledger starts from -/
+/-- all values parse to `n` ⇒ the reference reads `n` -/
+theorem spec_of_all_parse (g : List Header) (n : Nat) (hne : Spec.Http.get g "content-length" ≠ [])
+    (hall : ∀ v ∈ Spec.Http.get g "content-length", parseU64 v = some n) :
+    Spec.Http.contentLength g = some (some n) := by
+  unfold Spec.Http.contentLength
+  cases hv : Spec.Http.get g "content-length" with
+  | nil => exact absurd hv hne
+  | cons v rest =>
+    rw [hv] at hall
+    simp only
+    rw [parseU64_clValue v n (hall v (by simp))]
+    simp only
+    have : rest.all (fun o => Spec.Http.clValue o == some n) = true := by
+      rw [List.all_eq_true]
+      intro o ho
+      rw [parseU64_clValue o n (hall o (by simp [ho]))]
+      simp
+    rw [if_pos this]
+
+/-- **the code agrees with the reference**: an accepted head (live stream, not a response to HEAD) that
+    carries a content-length is one for which `Spec.Http.contentLength` reads a number `n`, and `n` is
+    what the ledger starts from -/
+theorem accepted_head_agrees_with_reference (s : Streams) (k : Nat) (blk : HeaderBlock) (g : List Header) (sid : Nat)
+    (eos : Bool) (cl0 : ContentLength) (hf : blk.fields = groupInto [] (regular g))
+    (live : clOf s k = some cl0) (hnh : cl0 ≠ .head)
+    (hok : (s.recvRecvHeaders k (Conn.headersIn sid eos blk)).2.isOk = true) :
+    (Spec.Http.contentLength g = none ∧ clOf (s.recvRecvHeaders k (Conn.headersIn sid eos blk)).1 k = some cl0) ∨
+    (∃ n, Spec.Http.contentLength g = some (some n) ∧
+      clOf (s.recvRecvHeaders k (Conn.headersIn sid eos blk)).1 k = some (.remaining n) ∧
+      ¬(eos = true ∧ n > 0 ∧ statusNot204304 (Conn.headersIn sid eos blk) = true)) := by
+  rcases accepted_head_content_length_all s k blk g sid eos cl0 hf live hnh hok with ⟨e, h1⟩ | ⟨n, hn, h1, h2⟩
+  · exact Or.inl ⟨by unfold Spec.Http.contentLength; rw [e], h1⟩
+  · by_cases hne : Spec.Http.get g "content-length" = []
+    · -- no field at all: `accepted_head_content_length_all` cannot be in its second case with the ledger changed
+      obtain ⟨c1, c2⟩ := recvRecvHeaders_cl s k _ cl0 live hok
+      rw [if_neg hnh, headCl_block blk g sid eos hf, hne] at c1
+      exact Or.inl ⟨by unfold Spec.Http.contentLength; rw [hne], c1⟩
+    · exact Or.inr ⟨n, spec_of_all_parse g n hne hn, h1, h2⟩
+
+/-- in the reference's terms: when `Spec.Http.contentLength` reads `n` and the head is accepted, `n` is
+    what the ledger starts from -/
 theorem accepted_head_content_length (s : Streams) (k : Nat) (blk : HeaderBlock) (g : List Header) (sid : Nat)
     (eos : Bool) (cl0 : ContentLength) (n : Nat) (hf : blk.fields = groupInto [] (regular g))
     (live : clOf s k = some cl0) (hnh : cl0 ≠ .head)
@@ -392,36 +441,52 @@ theorem accepted_head_content_length (s : Streams) (k : Nat) (blk : HeaderBlock)
     (hok : (s.recvRecvHeaders k (Conn.headersIn sid eos blk)).2.isOk = true) :
     clOf (s.recvRecvHeaders k (Conn.headersIn sid eos blk)).1 k = some (.remaining n) ∧
     ¬(eos = true ∧ n > 0 ∧ statusNot204304 (Conn.headersIn sid eos blk) = true) := by
-  -- the reference's reading: exactly one value `v`
-  have hone : ∃ v, Spec.Http.get g "content-length" = [v] := by
-    unfold Spec.Http.contentLength at hspec
-    split at hspec
-    · cases hspec
-    · rename_i v hv; exact ⟨v, hv⟩
-    · cases hspec
-  obtain ⟨v, hv⟩ := hone
-  rcases accepted_head_content_length_all s k blk g sid eos cl0 hf live hnh hok with ⟨e, -⟩ | ⟨n', hn, h1, h2⟩
-  · rw [hv] at e; cases e
-  · have hp := hn v (by rw [hv]; simp)
-    have := parseU64_spec g v n' hv hp
-    rw [hspec] at this
-    have e : n = n' := by simpa using this
-    subst e
+  rcases accepted_head_agrees_with_reference s k blk g sid eos cl0 hf live hnh hok with ⟨e, -⟩ | ⟨n', e, h1, h2⟩
+  · rw [hspec] at e; cases e
+  · rw [hspec] at e
+    have : n = n' := by simpa using e
+    subst this
     exact ⟨h1, h2⟩
 
-/-- … and the reference never reads a number the code refuses to read, except beyond 19 digits -/
-theorem spec_content_length_parses (g : List Header) (n : Nat) (v : Bytes) (hv : Spec.Http.get g "content-length" = [v])
-    (hspec : Spec.Http.contentLength g = some (some n)) (hlen : v.length ≤ 19) : parseU64 v = some n := by
+/-- **an announcement the reference cannot read is refused**: `Spec.Http.contentLength g = some none`
+    (a value that is empty or not all digits, or values that differ) ⇒ `recv_headers` does not answer `Ok` -/
+theorem unreadable_content_length_refused (s : Streams) (k : Nat) (blk : HeaderBlock) (g : List Header) (sid : Nat)
+    (eos : Bool) (cl0 : ContentLength) (hf : blk.fields = groupInto [] (regular g))
+    (live : clOf s k = some cl0) (hnh : cl0 ≠ .head) (hspec : Spec.Http.contentLength g = some none) :
+    (s.recvRecvHeaders k (Conn.headersIn sid eos blk)).2.isOk = false := by
+  cases hok : (s.recvRecvHeaders k (Conn.headersIn sid eos blk)).2.isOk with
+  | false => rfl
+  | true =>
+    rcases accepted_head_agrees_with_reference s k blk g sid eos cl0 hf live hnh hok with ⟨e, -⟩ | ⟨n, e, -⟩
+    · rw [hspec] at e; cases e
+    · rw [hspec] at e; cases e
+
+/-- **the one difference, on the safe side**: when the reference reads `n` and no value is longer than 19
+    octets, every value parses to `n` — so the only readable announcements the code refuses are those
+    with more than 19 digits -/
+theorem spec_content_length_parses (g : List Header) (n : Nat) (hspec : Spec.Http.contentLength g = some (some n))
+    (hlen : ∀ v ∈ Spec.Http.get g "content-length", v.length ≤ 19) :
+    Spec.Http.get g "content-length" ≠ [] ∧ ∀ v ∈ Spec.Http.get g "content-length", parseU64 v = some n := by
   unfold Spec.Http.contentLength at hspec
-  rw [hv] at hspec
-  simp only at hspec
-  split at hspec
-  · rename_i hd
-    simp only [Bool.and_eq_true, Bool.not_eq_true'] at hd
-    cases hspec
-    rw [parseU64_eq, if_neg (by simp [hd.1]), if_neg (by omega)]
-    have : v.all isDig = true := hd.2
-    rw [if_pos this]
-  · cases hspec
+  cases hv : Spec.Http.get g "content-length" with
+  | nil => rw [hv] at hspec; cases hspec
+  | cons v rest =>
+    rw [hv] at hspec hlen
+    simp only at hspec
+    cases hc : Spec.Http.clValue v with
+    | none => rw [hc] at hspec; cases hspec
+    | some m =>
+      rw [hc] at hspec
+      simp only at hspec
+      split at hspec
+      · rename_i hall
+        have e : m = n := by simpa using hspec
+        subst e
+        refine ⟨by simp, fun o ho => ?_⟩
+        rcases List.mem_cons.mp ho with rfl | ho'
+        · exact clValue_parseU64 _ _ (hlen _ (by simp)) hc
+        · have := List.all_eq_true.mp hall o ho'
+          exact clValue_parseU64 _ _ (hlen _ (by simp [ho'])) (by simpa using this)
+      · cases hspec
 
 end H2V.Lemmas.ConnHttpP
